@@ -220,7 +220,7 @@ Definition k_r : key := {| kc := 114%N; kw := [114; 105; 103; 104; 116]%N |}.
 Definition flag (k : key) (excl : list key) : argdef :=
   {| a_key := k; a_kind := DBool; a_vmode := VMNone; a_mand := false; a_multi := false; a_sep := 44%N;
      a_clear := false; a_sort := false; a_uniq := false; a_uniq_err := false; a_checks := []; a_fmts := [];
-     a_card := CardMax 1; a_excl := excl; a_req := []; a_depr := false |}.
+     a_card := CardMax 1; a_excl := excl; a_req := []; a_depr := false; a_mix := false |}.
 Definition cfg_lr (fixed : bool) : cfg :=
   {| args := [flag k_l [key_of_char 114%N]; flag k_r []]; gcons := []; abbr := true; fixed_notify := fixed |}.
 Definition argv_l_right : list str := [[45; 108]; [45; 45; 114; 105; 103; 104; 116]]%N.
